@@ -834,17 +834,21 @@ func mkQuant1(op string, bound []*Term, body *Term) *Term {
 		if bare {
 			continue // A[j] occurs: already a usable trigger
 		}
-		idx := findIndexWith(body, b.Op)
+		var idx, base *Term
+		for _, ix := range idxs {
+			lin := linearize(ix)
+			c, ok := lin.coef[b.Op]
+			if !ok || c.Cmp(big.NewInt(1)) != 0 {
+				continue
+			}
+			bs := lin.without(b.Op)
+			if mentions(bs, b.Op) {
+				continue
+			}
+			idx, base = ix, bs
+			break
+		}
 		if idx == nil {
-			continue
-		}
-		lin := linearize(idx)
-		c, ok := lin.coef[b.Op]
-		if !ok || c.Cmp(big.NewInt(1)) != 0 {
-			continue
-		}
-		base := lin.without(b.Op)
-		if mentions(base, b.Op) {
 			continue
 		}
 		quantCtr++
